@@ -487,6 +487,7 @@ std::string corruption_class(const Json &op) {
 	if (c == "drop_ext" || c == "swap_ext" || c == "dup_ext" || c == "resize_ext") return "ext";
 	if (c == "knot_set" || c == "knot_swap" || c == "knots_reverse") return "knots";
 	if (c == "foreign") return "foreign";
+	if (c == "reshape") return "shape";
 	return "other";
 }
 
@@ -601,6 +602,20 @@ Json gen_corruption(Rng &r, const Bytes &base, const TableSpec &spec) {
 		return j;
 	}
 	if (w < 74) {
+		// a *consistent* re-shape of one dimension around the reader's validation boundaries: order,
+		// axis length, knot count and array sizes all agree, only the combination may be inadmissible
+		// (exactly `order` coefficients, exactly order+1, order 0 with one coefficient, ...)
+		if (r.chance(0.12) && spec.ndim) {
+			Json j = mk("reshape");
+			uint32_t d = (uint32_t)r.below(spec.ndim);
+			long long o = (long long)r.below(6);
+			long long deltas[] = {0, 1, -1, 2, 1, 0};            // naxes = order + delta  (delta<=0: inadmissible)
+			long long n = o + deltas[r.below(6)];
+			if (n < 1) n = 1;
+			j["dim"] = Json((long long)d); j["order"] = Json(o); j["naxes"] = Json(n);
+			j["nknots_off"] = Json((long long)(r.chance(0.8) ? 0 : (r.chance(0.5) ? 1 : -1)));   // sometimes one knot too many / too few
+			return j;
+		}
 		if (r.chance(0.08)) { Json j = mk("del_end"); j["hdu"] = Json((long long)r.below(hdus.size() ? hdus.size() : 1)); return j; }
 		if (r.chance(0.1)) {
 			Json j = mk("resize_primary");
@@ -675,6 +690,29 @@ bool apply_corruption(Bytes &img, const Json &op, std::string &note) {
 	if (c == "foreign") {
 		img = foreign_fits(op.gets("kind"), (uint64_t)op.geti("seed"));
 		note = "replaced by " + op.gets("kind");
+		return true;
+	}
+	if (c == "reshape") {
+		TableSpec t; std::string err;
+		if (!decode_fits(img, t, err) || !t.ndim) { note = "image not decodable: " + err; return false; }
+		uint32_t d = (uint32_t)((uint64_t)op.geti("dim") % t.ndim);
+		uint32_t o = (uint32_t)op.geti("order");
+		uint64_t n = (uint64_t)std::max<int64_t>(1, op.geti("naxes"));
+		int64_t nk = (int64_t)n + o + 1 + op.geti("nknots_off");
+		if (nk < 1) nk = 1;
+		t.order[d] = o;
+		if (t.single_order) for (auto &v : t.order) v = o;
+		t.naxes[d] = n;
+		t.knots[d].resize((size_t)nk);
+		for (size_t k = 0; k < t.knots[d].size(); k++) t.knots[d][k] = (double)k - (double)o;
+		uint64_t total = 1;
+		for (auto a : t.naxes) total *= a;
+		if (total > 2000000) { note = "too large"; return false; }
+		t.coeff.assign((size_t)total, 0.f);
+		for (size_t k = 0; k < t.coeff.size(); k++) t.coeff[k] = 1.0f + (float)(k % 7);
+		if (t.has_extents && t.extents.size() >= 2 * (size_t)t.ndim) { t.extents[2 * d] = 0; t.extents[2 * d + 1] = (double)n; }
+		img = encode_fits(t);
+		note = "dimension " + std::to_string(d) + " re-shaped to order " + std::to_string(o) + ", " + std::to_string(n) + " coefficients, " + std::to_string(nk) + " knots";
 		return true;
 	}
 	if (c == "bitflip" || c == "setbyte" || c == "overwrite") {
